@@ -18,6 +18,7 @@ func main() {
 		NQuick:    240,
 		NThorough: 6000,
 		Corpus:    corpus,
+		VM:        true,
 		Isolate:   true,
 		KF: func(uses map[string]int, src string) []string {
 			if uses["funcdef-local-assign-selfref"] > 0 {
